@@ -135,6 +135,28 @@ func chunks(p []byte, n int) [][]byte {
 	return result
 }
 
+// queryName encodes p into the name of a query under c.domain, as described
+// at send. It fails if the name would exceed the limits of a DNS name.
+func (c *DNSPacketConn) queryName(p []byte) (dns.Name, error) {
+	encoded := make([]byte, base32Encoding.EncodedLen(len(p)))
+	base32Encoding.Encode(encoded, p)
+	encoded = bytes.ToLower(encoded)
+	labels := chunks(encoded, 63)
+	labels = append(labels, c.domain...)
+	return dns.NewName(labels)
+}
+
+// WriteTo queues p to be sent in a query to addr. A packet that does not fit
+// into a query name under the domain is refused here, with the error that send
+// would run into: sendLoop could only log it, and the caller (which waits for
+// the response to a query that was never sent) would wait forever.
+func (c *DNSPacketConn) WriteTo(p []byte, addr net.Addr) (int, error) {
+	if _, err := c.queryName(p); err != nil {
+		return 0, err
+	}
+	return c.QueuePacketConn.WriteTo(p, addr)
+}
+
 // send sends p as a single packet encoded into a DNS query, using
 // transport.WriteTo(query, addr). The length of p must be less than 224 bytes.
 //
@@ -147,12 +169,7 @@ func chunks(p []byte, n int) [][]byte {
 //  3. Append the domain.
 //     ingesrkokreujy6zumkse43vobsxey3bnruwm4tbm5uwy2ltoruwgzlyobuwc3d.jmrxwg2lpovzq.t.example.com
 func (c *DNSPacketConn) send(transport net.Conn, p []byte) error {
-	encoded := make([]byte, base32Encoding.EncodedLen(len(p)))
-	base32Encoding.Encode(encoded, p)
-	encoded = bytes.ToLower(encoded)
-	labels := chunks(encoded, 63)
-	labels = append(labels, c.domain...)
-	name, err := dns.NewName(labels)
+	name, err := c.queryName(p)
 	if err != nil {
 		return err
 	}
